@@ -19,6 +19,17 @@ def make_experiments(d, seed):
     """Three read sets over one genome/annotation: A and B share expressed genes, C is smaller; A2 = copy of A."""
     w = world2.rich_world(seed, n_chroms=3, genes_per_chrom=3, reads_per_t=6, hidden_cov=5, unmapped=0, zoo=world2.ZOO_ALL)
     os.makedirs(d, exist_ok=True)
+    if "chrU" in w.chroms:
+        # long reads on the unannotated sequence whose first intron starts 4 bp before the intron that short reads support
+        for k in range(8):
+            w.make_read("chrU", [(2100 + 5 * k, 2396), (3000, 3300), (4000, 4300 - 3 * k)], polya=30, truth={"class": "junction-4bp-off-short-read-junction"})
+        from vlib.world import World
+        sw = World(seed)
+        sw.chroms, sw.chrom_order = w.chroms, w.chrom_order
+        for intr in ((2401, 2999), (3301, 3999)):
+            for _ in range(4):
+                sw.make_read("chrU", [(intr[0] - 60, intr[0] - 1), (intr[1] + 1, intr[1] + 60)], name=sw.new_read_name("s"))
+        sw.write_bam(os.path.join(d, "short.bam"))
     w.write_fasta(os.path.join(d, "g.fa"))
     w.write_gtf(os.path.join(d, "a.gtf"))
     reads = [r for r in w.reads]
@@ -51,21 +62,31 @@ def make_experiments(d, seed):
     paths["A2"] = {"one": [os.path.join(d, "A2.bam")], "two": paths["A"]["two"], "skew": paths["A"]["skew"]}
     # experiment names that differ only in surrounding white space are different names (different output folders)
     paths["B "] = paths["C"]
+    paths["SKIP"] = {"one": [], "two": [], "skew": []}        # an experiment without long-read files (silently dropped)
     return paths
 
 
-def write_yaml(path, exps, unlabeled=()):
+def illumina_of(mode):
+    """mode 'yaml-ill:A' = YAML input in which experiment A carries an 'illumina bam' entry (short.bam next to the YAML file)"""
+    return tuple(mode.split("ill:", 1)[1].split(",")) if "ill:" in mode else ()
+
+
+def write_yaml(path, exps, unlabeled=(), illumina=()):
     """exps: list of (name, [files]); experiments named in `unlabeled` get no labels entry (file names are used then)"""
     with open(path, "w") as f:
         f.write("[\n  data format: \"bam\",\n")
         items = []
         for name, files in exps:
-            if name in unlabeled:
-                items.append("  {\n    name: \"%s\",\n    long read files: [%s]\n  }" % (name, ", ".join('"%s"' % x for x in files)))
+            ill = (',\n    illumina bam: ["%s"]' % os.path.join(os.path.dirname(path), "short.bam")) if name in illumina else ""
+            if not files:
+                items.append("  {\n    name: \"%s\",\n    long read files: []%s\n  }" % (name, ill))
                 continue
-            items.append("  {\n    name: \"%s\",\n    long read files: [%s],\n    labels: [%s]\n  }" %
+            if name in unlabeled:
+                items.append("  {\n    name: \"%s\",\n    long read files: [%s]%s\n  }" % (name, ", ".join('"%s"' % x for x in files), ill))
+                continue
+            items.append("  {\n    name: \"%s\",\n    long read files: [%s],\n    labels: [%s]%s\n  }" %
                          (name, ", ".join('"%s"' % x for x in files),
-                          ", ".join('"%s_r%d"' % (name.lower(), i + 1) for i in range(len(files)))))
+                          ", ".join('"%s_r%d"' % (name.lower(), i + 1) for i in range(len(files))), ill))
         f.write(",\n".join(items))
         f.write("\n]\n")
 
@@ -143,11 +164,11 @@ def run(chk, scratch):
                     (["A", "B"], "one", 1, "yaml-nomodels"), (["C", "A", "B"], "one", 1, "yaml"),
                     (["A", "B"], ("one", "skew"), 1, "yaml"), (["B", "A"], ("skew", "one"), 1, "yaml"), (["C", "A", "B"], ("one", "skew", "two"), 4, "list"),
                     (["A", "B"], "skew", 4, "yaml"), (["A", "B"], "two", 1, "yaml-unl:B"), (["B", "A", "C"], "two", 2, "yaml-unl:B,C"),
-                    (["C", "A"], ("one", "two"), 1, "yaml-unl:C"), (["B", "B "], "one", 1, "yaml"), (["B ", "A", "B"], "two", 3, "yaml")]
+                    (["C", "A"], ("one", "two"), 1, "yaml-unl:C"), (["B", "B "], "one", 1, "yaml"), (["B ", "A", "B"], "two", 3, "yaml"), (["SKIP", "A", "B"], "one", 1, "yaml-ill:SKIP,A"), (["A", "SKIP", "B", "C"], "one", 2, "yaml-ill:A,C")]
         else:
             seqs = [(["A", "B", "C"], "one", 1, "yaml"), (["B", "A"], "one", 4, "list"), (["A", "B"], "two", 1, "yaml"),
                     (["A", "A2"], "one", 1, "yaml"), (["A", "B"], ("one", "skew"), 1, "yaml"), (["B", "A"], ("skew", "one"), 2, "list"),
-                    (["A", "B"], "two", 2, "yaml-unl:B"), (["B", "B "], "one", 2, "yaml")]
+                    (["A", "B"], "two", 2, "yaml-unl:B"), (["B", "B "], "one", 2, "yaml"), (["SKIP", "A", "B"], "one", 1, "yaml-ill:SKIP,A")]
         # stand-alone runs (per experiment x files x threads x mode)
         # a sequence whose experiments differ in the number of files runs (stand-alone and joint) with an explicit --read_group file_name,
         # which a mixed sequence would otherwise switch on implicitly for all experiments
@@ -159,7 +180,8 @@ def run(chk, scratch):
         solo_keys = set()
         for names, nf, t, mode in seqs:
             for pos, n in enumerate(names):
-                solo_keys.add((n, nf_of(nf, pos), t, mode, not isinstance(nf, str)))
+                if n != "SKIP":
+                    solo_keys.add((n, nf_of(nf, pos), t, mode, not isinstance(nf, str)))
 
         def run_solo(key):
             n, nf, t, mode, rg = key
@@ -169,7 +191,7 @@ def run(chk, scratch):
             extra = ["--no_model_construction"] if mode.endswith("nomodels") else []
             extra += ["--read_group", "file_name"] if rg else []
             if mode.startswith("yaml"):
-                write_yaml(inp, [(n, paths[n][nf])], unlabeled=unlabeled_of(mode))
+                write_yaml(inp, [(n, paths[n][nf])], unlabeled=unlabeled_of(mode), illumina=illumina_of(mode))
                 a = ["-o", out, "--yaml", inp]
             else:
                 write_list(inp, [(n, paths[n][nf])])
@@ -193,7 +215,7 @@ def run(chk, scratch):
             extra += rg_of(nf)
             exps = [(n, paths[n][nf_of(nf, pos)]) for pos, n in enumerate(names)]
             if mode.startswith("yaml"):
-                write_yaml(inp, exps, unlabeled=unlabeled_of(mode))
+                write_yaml(inp, exps, unlabeled=unlabeled_of(mode), illumina=illumina_of(mode))
                 a = ["-o", out, "--yaml", inp]
             else:
                 write_list(inp, exps)
@@ -214,7 +236,7 @@ def run(chk, scratch):
             chk.sample({"sequence": names, "threads": t, "carried_state_at_sample_start": [(s["prefix"], s["state"]) for s in snaps]}, limit=3)
             for pos, n in enumerate(names):
                 key = (n, nf_of(nf, pos), t, mode, not isinstance(nf, str))
-                if key not in solos:
+                if n == "SKIP" or key not in solos:
                     continue
                 a_dir, b_dir = os.path.join(solos[key], n), os.path.join(out, n)
                 diffs = runner.compare_trees(a_dir, b_dir)
@@ -236,7 +258,7 @@ def run(chk, scratch):
                     chk.nontrivial.add((tuple(names), pos, t, nf, mode))
                     if not isinstance(nf, str) and len(paths[n][nf_of(nf, pos)]) > 1 and any(len(paths[m][nf_of(nf, q)]) == 1 for q, m in enumerate(names[:pos])):
                         chk.count("multi_file_experiments_after_a_single_file_one")
-            check_combined(chk, out, names, wit)
+            check_combined(chk, out, [n for n in names if n != "SKIP"], wit)
             shutil.rmtree(out, ignore_errors=True)
         if chk.violations and not getattr(chk, "witness_files", None):
             chk.witness_files = [os.path.join(d, f) for f in os.listdir(d) if f.endswith((".bam", ".bai", ".gtf", ".fa", ".in"))]
